@@ -36,6 +36,27 @@ pub struct Sys {
     scratch: Scratch,
 }
 
+/// The harness's canonical tokens for the abstract export of the relying-party walk.
+struct CanonToks<'a>(&'a mut Canon);
+
+impl kharness::rp::AbsTokens for CanonToks<'_> {
+    fn key(&mut self, hex: &str) -> Value {
+        Value::String(self.0.key(hex))
+    }
+    fn hash(&mut self, hex: &str) -> Value {
+        Value::String(self.0.hash(hex))
+    }
+    fn serial(&mut self, dec: &str) -> Value {
+        Value::String(if dec.len() > 12 { self.0.serial(dec) } else { dec.to_string() })
+    }
+    fn resources(&mut self, asn: &str, v4: &str, v6: &str) -> Value {
+        crate::canon::resources_of(asn, v4, v6)
+    }
+    fn text(&mut self, s: &str) -> String {
+        self.0.text(s)
+    }
+}
+
 pub fn atoms_to_resources(atoms: &[u32]) -> ResourceSet {
     let asn = atoms.iter().map(|i| format!("AS{}", 64512 + i)).collect::<Vec<_>>().join(",");
     let v4 = atoms.iter().map(|i| format!("10.{i}.0.0/16")).collect::<Vec<_>>().join(",");
@@ -729,6 +750,9 @@ impl Sys {
         }
         let input = kharness::rp::RpInput { ta_cert_der: &ta, objects: &objs, now: rpki::repository::x509::Time::now() };
         let rep = kharness::rp::walk(&input);
+        // what the repository contains in the vocabulary of the Lean relying-party model
+        // (judged by `kmodel rptree`)
+        let abs = kharness::rp::abstract_export(&input, &rep, &mut CanonToks(&mut self.canon));
         let problems: Vec<Value> = rep.problems.iter().map(|p| json!({"uri": self.canon.text(&p.uri), "kind": p.kind, "detail": p.detail.chars().take(120).collect::<String>()})).collect();
         let per_ca: Vec<Value> = rep.per_ca.iter().map(|c| json!({
             "mft": self.canon.text(&c.mft_uri), "number": c.manifest_number, "crl_number": c.crl_number,
@@ -749,6 +773,7 @@ impl Sys {
             "missing": rep.missing.iter().map(|s| self.canon.text(s)).collect::<Vec<_>>(),
             "n_objects": objs.len(), "n_accepted": rep.objects_accepted.len(),
             "per_ca": per_ca,
+            "abstract": abs,
         })
     }
 
